@@ -60,8 +60,12 @@ def concurrent_cases(draw, strategy=None):
   nts = draw(st.integers(1, 4))
   recv = draw(recv_ops(draw(st.integers(2, 9)), counter, nm, nts))
   writer = [['drain'] for _ in range(draw(st.integers(1, 8)))]
-  return {'strategy': strategy, 'programs': [recv, writer], 'switches': draw(switch_lists()),
+  case = {'strategy': strategy, 'programs': [recv, writer], 'switches': draw(switch_lists()),
           'choices': draw(st.lists(st.integers(0, 4), max_size=8)), 'first': draw(st.integers(0, 1))}
+  if draw(st.integers(0, 3)) == 0:
+    case['max_cache_size'] = draw(st.integers(1, 4))     # bounded cache: the same clauses hold (refusals per C10)
+    case['flow'] = False
+  return case
 
 
 @st.composite
@@ -76,8 +80,12 @@ def sequential_cases(draw, strategy=None):
       ops.append(['drain'])
     else:
       ops += draw(recv_ops(1, counter, nm, nts))
-  return {'strategy': strategy, 'programs': [ops, []], 'switches': [],
+  case = {'strategy': strategy, 'programs': [ops, []], 'switches': [],
           'choices': draw(st.lists(st.integers(0, 4), max_size=20)), 'first': 0}
+  if draw(st.integers(0, 3)) == 0:
+    case['max_cache_size'] = draw(st.integers(1, 4))
+    case['flow'] = False
+  return case
 
 
 def size_invariant(ctx, case, bad):
@@ -142,10 +150,15 @@ def judge(ctx, case, run, bad, spec=None, prefix='C02'):
 def execute(ctx, case):
   bad = []
   run = cachesim.run_case(case, on_point=size_invariant(ctx, case, bad))
-  if not judge(ctx, case, run, bad):
+  spec = None
+  if case.get('max_cache_size') is not None:
+    # a new timestamp may be refused when full (whether it must be is C10's business: the store's own
+    # overflow signal tells which happened); an update of a cached timestamp always takes effect
+    spec = cachesim.make_spec(hard_max=case['max_cache_size'], check_overflow=True)
+  if not judge(ctx, case, run, bad, spec=spec):
     return
   conc = bool(case['programs'][1])
-  classes = [case['strategy'], 'concurrent' if conc else 'sequential']
+  classes = [case['strategy'], 'concurrent' if conc else 'sequential'] + (['bounded cache'] if case.get('max_cache_size') else [])
   if run.preemptions_in_op:
     classes.append('preempted inside an operation')
   if any(o[0] == 'bulk' for o in case['programs'][0]):
